@@ -28,3 +28,5 @@ Theorem C14_fold_upper_refuted : stmt_C14_fold_upper_refuted. Proof. exact C14_f
 Print Assumptions C14_fold_upper_refuted.
 Theorem C14_maps_in_range_refuted : stmt_C14_maps_in_range_refuted. Proof. exact C14_maps_in_range_refuted_proof. Qed.
 Print Assumptions C14_maps_in_range_refuted.
+Theorem C14_spot_facts_refuted : stmt_C14_spot_facts_refuted. Proof. exact C14_spot_facts_refuted_proof. Qed.
+Print Assumptions C14_spot_facts_refuted.
